@@ -289,6 +289,8 @@ class BuildTaint:
                 return None
             if b == BOX and e.attr in ("items", "values", "keys"):
                 return BOX
+            if b == BOX and e.attr in ("start", "stop", "step"):
+                return RAW  # the bounds of a builtin slice: reading them runs nothing, what is read is user data again
             if not isinstance(e.ctx, ast.Store):
                 self.follow_property(f, e)
                 if self.wraps_user_stream(f, e.value):
@@ -436,7 +438,8 @@ class BuildTaint:
                 and len(test.left.args) == 1 and isinstance(test.left.args[0], ast.Name) and isinstance(test.ops[0], (ast.In, ast.Is, ast.Eq)):
             rhs = test.comparators[0]
             names = [x.id for x in (rhs.elts if isinstance(rhs, (ast.Tuple, ast.List, ast.Set)) else [rhs]) if isinstance(x, ast.Name)]
-            if names and all(n in ("list", "tuple", "dict", "set", "frozenset") for n in names):
+            # an exact builtin slice is a box of its three bounds (which may be user objects)
+            if names and all(n in ("list", "tuple", "dict", "set", "frozenset", "slice") for n in names):
                 return test.left.args[0].id
         return None
 
@@ -449,7 +452,7 @@ class BuildTaint:
             rhs = test.comparators[0]
             elts = rhs.elts if isinstance(rhs, (ast.Tuple, ast.List, ast.Set)) else [rhs]
             names = [x.id for x in elts if isinstance(x, ast.Name)]
-            if names and len(names) == len(elts) and all(n in ("int", "str", "float", "bool", "bytes", "slice", "complex") for n in names):
+            if names and len(names) == len(elts) and all(n in ("int", "str", "float", "bool", "bytes", "complex") for n in names):
                 return test.left.args[0].id, isinstance(test.ops[0], (ast.In, ast.Is))
         return None
 
